@@ -1,4 +1,5 @@
 CONSTANTS
+  DeepNs = {64}
   Ns = {8, 16}
   Bs = {2, 3, 4, 5, 6}
   MaxS = 3
